@@ -31,7 +31,8 @@ class Net:
         self.rng = rng
         self.cells = []
         self.wires = []          # internal wires (name, type)
-        self.avail = {"u2": ["self.i0", "self.i1"], "bv2": ["self.i0.bitvector", "self.i1.bitvector"]}
+        # self.acc: a parent-level register WITH a power-up value, updated from itself, used whole and as a view
+        self.avail = {"u2": ["self.i0", "self.i1", "self.acc", "self.acc"], "bv2": ["self.i0.bitvector", "self.i1.bitvector", "self.acc.bitvector"]}
         self.bus_written = []
 
     def src(self, ty):
@@ -89,8 +90,8 @@ def leaf_class(kind):
     return lines
 
 
-def mid_class(name, k1, k2):
-    """a two-level template: o = k2(k1(a, b), b)"""
+def mid_class(name, k1, k2, ctx=False):
+    """a two-level template: o = k2(k1(a, b), b); ctx: the two instances are created INSIDE a concurrent context"""
     t1, t2 = KINDS[k1][0], KINDS[k2][0]
     assert t1 == t2
     clocked = KINDS[k1][2] or KINDS[k2][2]
@@ -99,10 +100,16 @@ def mid_class(name, k1, k2):
         lines.append("    clk = Port.input(Bit)")
     lines += [f"    a = Port.input({TY[t1]})", f"    b = Port.input({TY[t1]})",
               f"    o = Port.output({TY[t1]}" + (", default=Null)" if KINDS[k2][2] else ")"), "",
-              "    def architecture(self):", f"        m = Signal[{TY[t1]}](" + ("Null" if KINDS[k1][2] else "") + ")"]
+              "    def architecture(self):"]
+    ind = "        "
+    if ctx:
+        lines += ["        @std.concurrent", "        def inst_ctx():"]
+        ind = "            "
+    # inside a context a Signal with an initial value counts as written by that context (and the instance writes it too)
+    lines += [f"{ind}m = Signal[{TY[t1]}](" + ("Null" if KINDS[k1][2] and not ctx else "") + ")"]
     c1 = "clk=self.clk, " if KINDS[k1][2] else ""
     c2 = "clk=self.clk, " if KINDS[k2][2] else ""
-    lines += [f"        Leaf{k1}({c1}a=self.a, b=self.b, o=m)", f"        Leaf{k2}({c2}a=m, b=self.b, o=self.o)"]
+    lines += [f"{ind}Leaf{k1}({c1}a=self.a, b=self.b, o=m)", f"{ind}Leaf{k2}({c2}a=m, b=self.b, o=self.o)"]
     return lines
 
 
@@ -120,8 +127,10 @@ def sub(line, a, b, o):
     return re.sub(r"\bself\.(a|b|o)\b", lambda mm: m[mm.group(1)], line)
 
 
-def render(net: Net, hier: bool, mids):
-    """mids: set of cell indices k such that cells k is rendered through a Mid template (as k1=k2=kind chain)"""
+def render(net: Net, hier: bool, mids, inl=frozenset()):
+    """mids: {cell index k: "arch" | "ctx"}: cell k is rendered through a Mid template (as k1=k2=kind chain) whose own
+    instances are created at architecture level / inside a concurrent context;
+    inl: cell indices whose instance in Top is created inside a concurrent context"""
     lines = list(HEAD)
     if hier:
         used = []
@@ -130,11 +139,14 @@ def render(net: Net, hier: bool, mids):
                 used.append(kind)
         for kind in used:
             lines += leaf_class(kind) + [""]
-        for kind in sorted({net.cells[k][0] for k in mids}):
-            lines += mid_class(f"Mid{kind}", kind, kind) + [""]
+        for kind, fl in sorted({(net.cells[k][0], fl) for k, fl in mids.items()}):
+            lines += mid_class(f"Mid{'C' if fl == 'ctx' else ''}{kind}", kind, kind, fl == "ctx") + [""]
     lines += ["class Top(cohdl.Entity):"] + TOP_PORTS + ["", "    def architecture(self):",
                                                          "        self.bus = Signal[BitVector[4]]()",
                                                          "        self.pbus = Signal[BitVector[4]]()",
+                                                         "        self.acc = Signal[Unsigned[2]](2)",
+                                                         "        @std.sequential(std.Clock(self.clk))", "        def acc_proc():",
+                                                         "            self.acc <<= self.acc + self.i1",
                                                          "        @std.concurrent", "        def drive_bus():",
                                                          "            self.bus <<= self.i0 @ self.i1"]
     for w, ty in net.wires:
@@ -144,10 +156,14 @@ def render(net: Net, hier: bool, mids):
         ty, body, clocked = KINDS[kind]
         if hier:
             c = "clk=self.clk, " if clocked else ""
+            ind = "        "
+            if k in inl:
+                lines += ["        @std.concurrent", f"        def inst_ctx_{k}():"]
+                ind = "            "
             if k in mids:
-                lines.append(f"        Mid{kind}({c}a={a}, b={b}, o={target})")
+                lines.append(f"{ind}Mid{'C' if mids[k] == 'ctx' else ''}{kind}({c}a={a}, b={b}, o={target})")
             else:
-                lines.append(f"        Leaf{kind}({c}a={a}, b={b}, o={target})")
+                lines.append(f"{ind}Leaf{kind}({c}a={a}, b={b}, o={target})")
         else:
             def inline(kind, a, b, target, suffix):
                 ty, body, clocked = KINDS[kind]
@@ -225,8 +241,12 @@ def run(ck: common.Check, replay=None):
     for k in range(n):
         net = Net(ck.rng)
         net.build(ck.rng.randint(2, 5))
-        mids = {i for i, c in enumerate(net.cells) if ck.rng.random() < 0.3}
-        items.append((f"tree{k:04d}", net, mids, render(net, True, mids), render(net, False, mids)))
+        mids = {i: ck.rng.choice(["arch", "ctx"]) for i, c in enumerate(net.cells) if ck.rng.random() < 0.35}
+        inl = frozenset(i for i, c in enumerate(net.cells) if ck.rng.random() < 0.25)
+        items.append((f"tree{k:04d}", net, mids, render(net, True, mids, inl), render(net, False, mids)))
+        for fl in set(mids.values()):
+            ck.hist("mid_template_instances_created_in", fl)
+        ck.hist("top_instances_inside_context", len(inl))
     designs = []
     for name, net, mids, hs, fs in items:
         designs.append({"name": name + "_h", "source": hs, "entity": "Top"})
@@ -257,16 +277,34 @@ def run(ck: common.Check, replay=None):
             declared["Leaf" + kd] = decl_of(kd)
         for i in mids:
             kd = net.cells[i][0]
-            declared["Mid" + kd] = decl_of(kd)
+            declared["Mid" + ("C" if mids[i] == "ctx" else "") + kd] = decl_of(kd)
         ok_if = check_interface(ck, ents_h, declared, name, hs)
         ck.obligation(ok_if)
         names = [e.name for e in ents_h]
-        want_templates = {"Top"} | {"Leaf" + kd for kd in kinds} | {"Mid" + net.cells[i][0] for i in mids}
+        want_templates = {"Top"} | {"Leaf" + kd for kd in kinds} | {"Mid" + ("C" if mids[i] == "ctx" else "") + net.cells[i][0] for i in mids}
         once = sorted(names) == sorted(want_templates)
         ck.obligation(once)
         if not once:
             ck.violation({"case": name, "templates": "count"}, "entity templates are not emitted exactly once each",
                          {"emitted": names, "expected": sorted(want_templates), "source": hs})
+        # sub-entities are emitted before the entities that use them
+        seen, late = set(), []
+        for e in ents_h:
+            for c in e.conc:
+                if isinstance(c, R.Instance) and c.entity not in seen:
+                    late.append((e.name, c.entity))
+            seen.add(e.name)
+        ck.obligation(not late)
+        if late:
+            ck.violation({"case": name, "templates": "order"}, "an entity is emitted before a sub-entity it instantiates",
+                         {"emission_order": names, "used_before_emitted": late, "source": hs})
+        shapes = set()
+        for i, c in enumerate(net.cells):
+            if i not in mids and any(j in mids and net.cells[j][0] == c[0] for j in range(len(net.cells))):
+                first_mid = min(j for j in mids if net.cells[j][0] == c[0])
+                shapes.add("leaf_before_mid" if i < first_mid else "mid_before_leaf")
+        for sh in shapes:
+            ck.hist("template_at_two_depths", sh)
         n_inst = sum(1 for e in ents_h for c in e.conc if isinstance(c, R.Instance))
         ck.hist("instances", n_inst)
         ck.hist("depth", 3 if mids else 2)
